@@ -73,6 +73,11 @@ var J5SchemaSpec = &bcl_j5pb.Schema{
 			FieldName: ("items"),
 			IsBlock:   true,
 		},
+		Alias: []*bcl_j5pb.Alias{{
+			// README: `field bars array { field barId key:id62 }` is an array of inline objects
+			Name: "field",
+			Path: bclPath("items", "object", "object", "properties"),
+		}},
 	}, {
 		SchemaName: "j5.schema.v1.MapField",
 		Qualifier: &bcl_j5pb.Tag{
